@@ -950,14 +950,35 @@ func ruleBrokerRuns(c *Ctx) {
 			n++
 			target := accessPath(info, as.Lhs[0])
 			runs := false
-			ast.Inspect(f.Body, func(x ast.Node) bool {
-				if gs, ok := x.(*ast.GoStmt); ok {
-					if se, ok := ast.Unparen(gs.Call.Fun).(*ast.SelectorExpr); ok && se.Sel.Name == "Run" && accessPath(info, se.X) == target && target != "" {
-						runs = true
+			// only code the creating function itself executes counts: a go statement
+			// inside a function literal that is merely stored (a start hook run "on
+			// first use") does not start the broker here
+			var walk func(x ast.Node, live bool)
+			walk = func(x ast.Node, live bool) {
+				ast.Inspect(x, func(y ast.Node) bool {
+					switch z := y.(type) {
+					case *ast.FuncLit:
+						// executed here only when called, deferred or go'd on the spot
+						exec := false
+						switch par := p.Parent(z).(type) {
+						case *ast.CallExpr:
+							if ast.Unparen(par.Fun) == ast.Expr(z) {
+								exec = true
+							}
+						}
+						if exec {
+							walk(z.Body, live)
+						}
+						return false
+					case *ast.GoStmt:
+						if se, ok := ast.Unparen(z.Call.Fun).(*ast.SelectorExpr); ok && live && se.Sel.Name == "Run" && accessPath(info, se.X) == target && target != "" {
+							runs = true
+						}
 					}
-				}
-				return true
-			})
+					return true
+				})
+			}
+			walk(f.Body, true)
 			construct := "the broker created here is run"
 			if runs {
 				c.R.Hold("R-RUN/broker", p.Pos(call), f.Name, construct, "go "+exprStr(as.Lhs[0])+".Run() in the same function", true)
@@ -1922,6 +1943,32 @@ func ruleMuxWindow(c *Ctx) {
 		if !bad {
 			c.R.Hold("R-MUX/window", p.Pos(f.Node()), f.Name, "a brokered server is not ended by a timer", "no timer, deadline or sleep in AcceptAndServe or its closures", true)
 		}
+		// ... but it does end with the broker: AcceptAndServe (or a closure of it)
+		// waits on the broker's done channel. Closing the recorded listeners is
+		// not enough - a multiplexed listener is not one of them.
+		doneF := p.FieldObj(modPath, "GRPCBroker", "doneCh")
+		waitsDone := false
+		for _, lf := range p.Funcs {
+			root := lf
+			for root.Parent != nil {
+				root = root.Parent
+			}
+			if root != f {
+				continue
+			}
+			ast.Inspect(lf.Body, func(x ast.Node) bool {
+				if u, ok := x.(*ast.UnaryExpr); ok && u.Op == token.ARROW && SelField(lf.Pkg.TypesInfo, u.X) == doneF {
+					waitsDone = true
+				}
+				return true
+			})
+		}
+		if waitsDone {
+			c.R.Hold("R-MUX/window", p.Pos(f.Node()), f.Name, "a brokered server ends when the broker closes", "AcceptAndServe waits on GRPCBroker.doneCh", true)
+		} else {
+			c.R.Violate("R-MUX/window", p.Pos(f.Node()), f.Name, "a brokered server ends when the broker closes",
+				"nothing in AcceptAndServe waits on the broker's done channel: on a multiplexed connection (whose listeners the broker does not record) the serving goroutine and its knock listener outlive the broker", nil)
+		}
 	} else {
 		c.R.Undecided("R-MUX/window", "GRPCBroker.AcceptAndServe", "anchor", "function not found")
 	}
@@ -2072,5 +2119,431 @@ func ruleSockCfgOwn(c *Ctx) {
 	}
 	if n == 0 {
 		c.R.Undecided("R-COPY/sockcfg", "", "instance-floor", "no store to Client.unixSocketCfg found")
+	}
+}
+
+// ---------- R-GATE/accessor: Protocol() reports the protocol only of an accepted handshake ----------
+
+// ruleProtocolAccessor: Client.Protocol returns the recorded protocol only on
+// the success edge of a Start() call made in the same invocation. Start stores
+// Client.protocol while it is still validating the handshake line (before the
+// allowed-protocol, certificate and multiplexing gates), so the field alone
+// says nothing about acceptance.
+func ruleProtocolAccessor(c *Ctx) {
+	p := c.P
+	f := p.Fn("Client.Protocol")
+	if f == nil {
+		c.R.Undecided("R-GATE/accessor", "Client.Protocol", "anchor", "function not found")
+		return
+	}
+	info := f.Pkg.TypesInfo
+	g := p.Graph(f)
+	protoF := p.FieldObj(modPath, "Client", "protocol")
+	var errV *types.Var
+	for _, m := range g.Nodes {
+		if m.Ast == nil {
+			continue
+		}
+		for _, call := range callsIn(m.Ast) {
+			if p.CalleeName(f, call) == modPath+".Client.Start" {
+				errV = assignedErrVar(info, m.Ast)
+			}
+		}
+	}
+	if errV == nil {
+		c.R.Violate("R-GATE/accessor", p.Pos(f.Node()), f.Name, "protocol reported after a successful Start", "Protocol() does not call Start and test its error", nil)
+		return
+	}
+	okEdge := func(e *Edge) bool {
+		at, ok := edgeAtom(info, e)
+		return ok && at.Kind == "nil" && at.Op == token.EQL && identObj(info, at.X) == types.Object(errV)
+	}
+	n, bad := 0, false
+	for _, m := range g.Nodes {
+		rs, ok := m.Ast.(*ast.ReturnStmt)
+		if !ok || len(rs.Results) != 1 {
+			continue
+		}
+		reads := false
+		ast.Inspect(rs.Results[0], func(x ast.Node) bool {
+			if se, ok := x.(*ast.SelectorExpr); ok && SelField(info, se) == protoF {
+				reads = true
+			}
+			return true
+		})
+		if v, ok := identObj(info, rs.Results[0]).(*types.Var); ok && !v.IsField() {
+			if d := p.singleDef(f, v); d != nil && SelField(info, ast.Unparen(d)) == protoF {
+				reads = true
+			}
+		}
+		if !reads {
+			continue
+		}
+		n++
+		if !g.OnlyViaEdge(m, okEdge) {
+			bad = true
+			c.R.Violate("R-GATE/accessor", p.Pos(rs), f.Name, "protocol reported after a successful Start",
+				"Protocol() can return the recorded Client.protocol without a Start() of this call having succeeded: Start records the protocol of a handshake line before it has accepted the line, so a refused line's protocol is reported as if the plugin had started", nil)
+		}
+	}
+	if n == 0 {
+		c.R.Undecided("R-GATE/accessor", f.Name, "protocol reported after a successful Start", "no return of Client.protocol found")
+	} else if !bad {
+		c.R.Hold("R-GATE/accessor", p.Pos(f.Node()), f.Name, "protocol reported after a successful Start", "every return of Client.protocol lies on the err == nil edge of the Start() call", true)
+	}
+}
+
+// ---------- R-BOUND/poll: the reattached pid is polled at a constant, short interval ----------
+
+// rulePidPoll: pidWait notices the exit of a process that is not our child
+// only at its next poll, and Kill waits for that (through clientWaitGroup). The
+// poll interval is therefore a positive constant of at most five seconds:
+// every timer/ticker/sleep duration in pidWait is a constant, and no
+// Timer.Reset / Ticker.Reset re-arms it with a computed value.
+func rulePidPoll(c *Ctx) {
+	p := c.P
+	f := p.Fn("cmdrunner.pidWait")
+	if f == nil {
+		c.R.Undecided("R-BOUND/poll", "cmdrunner.pidWait", "anchor", "function not found")
+		return
+	}
+	info := f.Pkg.TypesInfo
+	n, bad := 0, false
+	for _, call := range f.Calls() {
+		var d ast.Expr
+		switch p.CalleeName(f, call) {
+		case "time.NewTicker", "time.NewTimer", "time.After", "time.Tick", "time.Sleep":
+			d = call.Args[0]
+		case "time.Timer.Reset", "time.Ticker.Reset":
+			d = call.Args[0]
+		default:
+			continue
+		}
+		n++
+		k := durationConst(info, d)
+		if k <= 0 || k > 5*int64(1e9) {
+			bad = true
+			c.R.Violate("R-BOUND/poll", p.Pos(call), f.Name, "poll interval "+exprStr(d),
+				"the interval at which a reattached plugin's pid is polled is not a positive constant of at most 5 s: the exit is noticed (and Kill returns) only at the next poll, however long the interval has grown", nil)
+		}
+	}
+	if n == 0 {
+		c.R.Undecided("R-BOUND/poll", f.Name, "poll interval", "no ticker, timer or sleep found in pidWait")
+	} else if !bad {
+		c.R.Hold("R-BOUND/poll", p.Pos(f.Node()), f.Name, "poll interval", fmt.Sprintf("%d timer/ticker durations, all positive constants of at most 5 s", n), true)
+	}
+}
+
+// ---------- R-BOUND/keepalive: the yamux sessions keep their default keep-alive ----------
+
+// ruleYamuxConfig: the only fields of a yamux.Config the module sets are the
+// log sinks. In particular the keep-alive (on by default, 30 s + 10 s) stays on:
+// it is what makes a blocked Control.Quit on a frozen net/rpc plugin return, so
+// that Kill reaches the forced kill.
+func ruleYamuxConfig(c *Ctx) {
+	p := c.P
+	allowed := map[string]bool{"Logger": true, "LogOutput": true}
+	n, bad := 0, false
+	for _, f := range p.Funcs {
+		if strings.HasSuffix(p.Fset.Position(f.Body.Pos()).Filename, "testing.go") {
+			continue
+		}
+		info := f.Pkg.TypesInfo
+		isCfg := func(t types.Type) bool {
+			if t == nil {
+				return false
+			}
+			if pt, ok := t.Underlying().(*types.Pointer); ok {
+				t = pt.Elem()
+			}
+			return strings.HasSuffix(t.String(), "yamux.Config")
+		}
+		ast.Inspect(f.Body, func(x ast.Node) bool {
+			switch s := x.(type) {
+			case *ast.AssignStmt:
+				for _, l := range s.Lhs {
+					if se, ok := ast.Unparen(l).(*ast.SelectorExpr); ok && isCfg(info.TypeOf(se.X)) {
+						n++
+						if !allowed[se.Sel.Name] {
+							bad = true
+							c.R.Violate("R-BOUND/keepalive", p.Pos(s), f.Name, "yamux.Config."+se.Sel.Name,
+								"the module changes a yamux session parameter other than the log sinks: with keep-alive off (or its timing changed) a frozen net/rpc plugin keeps the shutdown request of Kill blocked and is never force-killed", nil)
+						}
+					}
+				}
+			case *ast.CompositeLit:
+				if isCfg(info.TypeOf(s)) {
+					for _, el := range s.Elts {
+						if kv, ok := el.(*ast.KeyValueExpr); ok {
+							if k, ok := kv.Key.(*ast.Ident); ok {
+								n++
+								if !allowed[k.Name] {
+									bad = true
+									c.R.Violate("R-BOUND/keepalive", p.Pos(kv), f.Name, "yamux.Config."+k.Name,
+										"the module changes a yamux session parameter other than the log sinks: with keep-alive off (or its timing changed) a frozen net/rpc plugin keeps the shutdown request of Kill blocked and is never force-killed", nil)
+								}
+							}
+						}
+					}
+				}
+			}
+			return true
+		})
+	}
+	// package-level yamux.Config values
+	for _, pkg := range p.Pkgs {
+		for _, file := range pkg.Syntax {
+			if strings.HasSuffix(p.Fset.Position(file.Pos()).Filename, "_test.go") || strings.HasSuffix(p.Fset.Position(file.Pos()).Filename, "testing.go") {
+				continue
+			}
+			for _, d := range file.Decls {
+				gd, ok := d.(*ast.GenDecl)
+				if !ok || gd.Tok != token.VAR {
+					continue
+				}
+				ast.Inspect(gd, func(x ast.Node) bool {
+					cl, ok := x.(*ast.CompositeLit)
+					if !ok {
+						return true
+					}
+					if t := pkg.TypesInfo.TypeOf(cl); t != nil && strings.HasSuffix(t.String(), "yamux.Config") {
+						for _, el := range cl.Elts {
+							if kv, ok := el.(*ast.KeyValueExpr); ok {
+								if k, ok := kv.Key.(*ast.Ident); ok && !allowed[k.Name] {
+									n++
+									bad = true
+									c.R.Violate("R-BOUND/keepalive", p.Pos(kv), "(package level)", "yamux.Config."+k.Name,
+										"the module changes a yamux session parameter other than the log sinks: with keep-alive off (or its timing changed) a frozen net/rpc plugin keeps the shutdown request of Kill blocked and is never force-killed", nil)
+								}
+							}
+						}
+					}
+					return true
+				})
+			}
+		}
+	}
+	if !bad {
+		c.R.Hold("R-BOUND/keepalive", "-", "", "yamux session parameters", fmt.Sprintf("%d stores to yamux.Config fields, all to the log sinks", n), true)
+	}
+}
+
+// ---------- R-FRESH/listener: every multiplexed Accept gets a listener of its own ----------
+
+// ruleFreshMuxListener: the listener a muxer hands out for an id is built in
+// that call (newBlockedClientListener / newBlockedServerListener / a literal)
+// with the done channel it was given; it is never a listener found in the
+// table, whose done channel belongs to an earlier - possibly already closed -
+// Accept of the same id.
+func ruleFreshMuxListener(c *Ctx) {
+	p := c.P
+	n := 0
+	for _, name := range []string{"grpcmux.GRPCClientMuxer.Listener", "grpcmux.GRPCServerMuxer.Listener"} {
+		f := p.Fn(name)
+		if f == nil {
+			c.R.Undecided("R-FRESH/listener", name, "anchor", "function not found")
+			continue
+		}
+		info := f.Pkg.TypesInfo
+		var doneP types.Object
+		if f.Type.Params != nil {
+			for _, fd := range f.Type.Params.List {
+				for _, nm := range fd.Names {
+					if t := info.TypeOf(nm); t != nil {
+						if _, isChan := t.Underlying().(*types.Chan); isChan {
+							doneP = info.Defs[nm]
+						}
+					}
+				}
+			}
+		}
+		walkNoLit(f.Body, func(x ast.Node) bool {
+			rs, ok := x.(*ast.ReturnStmt)
+			if !ok || len(rs.Results) != 2 || isNilIdent(info, rs.Results[0]) {
+				return true
+			}
+			n++
+			r := ast.Unparen(p.Deref(f, rs.Results[0]))
+			if u, isU := r.(*ast.UnaryExpr); isU && u.Op == token.AND {
+				r = ast.Unparen(u.X)
+			}
+			fresh, usesDone := false, false
+			switch y := r.(type) {
+			case *ast.CallExpr:
+				if ce := p.FnOf(asFunc(p.Callee(f, y))); ce != nil && strings.HasPrefix(shortName(ce.Name), "grpcmux.newBlocked") || strings.Contains(p.CalleeName(f, y), "newBlocked") {
+					fresh = true
+				}
+				for _, a := range y.Args {
+					if doneP != nil && identObj(info, a) == doneP {
+						usesDone = true
+					}
+				}
+			case *ast.CompositeLit:
+				fresh = true
+				ast.Inspect(y, func(z ast.Node) bool {
+					if id, ok := z.(*ast.Ident); ok && doneP != nil && info.Uses[id] == doneP {
+						usesDone = true
+					}
+					return true
+				})
+			}
+			construct := "listener built for this Accept"
+			if fresh && (usesDone || doneP == nil) {
+				c.R.Hold("R-FRESH/listener", p.Pos(rs), f.Name, construct, "constructed in this call with the caller's done channel", true)
+			} else {
+				c.R.Violate("R-FRESH/listener", p.Pos(rs), f.Name, construct,
+					"the muxer can return a listener that was not built in this call with the done channel it was given (one found in its table): its done channel is that of an earlier Accept of the id, so once that one was closed the new listener reports EOF at once and the knock for it is never answered", nil)
+			}
+			return true
+		})
+	}
+	if n < 2 {
+		c.R.Undecided("R-FRESH/listener", "", "instance-floor", fmt.Sprintf("only %d listener returns found in the two muxers, 2 expected", n))
+	}
+}
+
+// ---------- R-GUARD/startlock: every return of Start has passed through the client lock ----------
+
+// ruleStartHoldsLock: the accessors that read client state without the lock
+// (Protocol, NegotiatedVersion, the dialers) are justified by "my own Start()
+// call returned, and Start's unlock happens-before my read". That argument
+// needs every return of Start to be made with Client.l held (a deferred unlock
+// releases it afterwards): a lock-free fast path out of Start lets a caller
+// read fields that another goroutine is still writing under the lock.
+func ruleStartHoldsLock(c *Ctx) {
+	p := c.P
+	f := p.Fn("Client.Start")
+	if f == nil {
+		c.R.Undecided("R-GUARD/startlock", "Client.Start", "anchor", "function not found")
+		return
+	}
+	g := p.Graph(f)
+	n, bad := 0, false
+	for _, m := range g.Nodes {
+		rs, ok := m.Ast.(*ast.ReturnStmt)
+		if !ok {
+			continue
+		}
+		n++
+		held := p.MustHeldAt(f, m)
+		has := false
+		for v := range held {
+			if p.lockName(v) == "Client.l" {
+				has = true
+			}
+		}
+		if !has {
+			bad = true
+			c.R.Violate("R-GUARD/startlock", p.Pos(rs), f.Name, "return with the client lock held",
+				"Start can return without having taken Client.l: callers that go on to read the client's state on the strength of their own Start() call (Protocol, NegotiatedVersion, the dialers) are no longer ordered after the goroutine that is still writing it", nil)
+		}
+	}
+	if n == 0 {
+		c.R.Undecided("R-GUARD/startlock", f.Name, "returns", "no return statement found")
+	} else if !bad {
+		c.R.Hold("R-GUARD/startlock", p.Pos(f.Node()), f.Name, "return with the client lock held", fmt.Sprintf("all %d returns are made with Client.l held", n), true)
+	}
+}
+
+// ---------- R-NIL/map: a map field that is stored into is never set to nil ----------
+
+// ruleMapFieldNotNil: for every struct field of map type into which some
+// function of the module stores elements (x.f[k] = v), no function assigns
+// nil to the field ("hand the map over and forget it"): a store that comes
+// later - an Accept finishing while Close runs - panics with "assignment to
+// entry in nil map", here with the owner's mutex held.
+func ruleMapFieldNotNil(c *Ctx) {
+	p := c.P
+	stored := map[*types.Var]bool{}
+	for _, f := range p.Funcs {
+		info := f.Pkg.TypesInfo
+		ast.Inspect(f.Body, func(x ast.Node) bool {
+			as, ok := x.(*ast.AssignStmt)
+			if !ok {
+				return true
+			}
+			for _, l := range as.Lhs {
+				if ix, ok := ast.Unparen(l).(*ast.IndexExpr); ok {
+					if fv := SelField(info, ix.X); fv != nil {
+						if _, isMap := fv.Type().Underlying().(*types.Map); isMap && fv.Pkg() != nil && strings.HasPrefix(fv.Pkg().Path(), modPath) {
+							stored[fv] = true
+						}
+					}
+				}
+			}
+			return true
+		})
+	}
+	n, bad := 0, false
+	for _, f := range p.Funcs {
+		if strings.HasSuffix(p.Fset.Position(f.Body.Pos()).Filename, "testing.go") {
+			continue
+		}
+		info := f.Pkg.TypesInfo
+		ast.Inspect(f.Body, func(x ast.Node) bool {
+			as, ok := x.(*ast.AssignStmt)
+			if !ok || len(as.Lhs) != len(as.Rhs) {
+				return true
+			}
+			for i, l := range as.Lhs {
+				fv := SelField(info, l)
+				if fv == nil || !stored[fv] {
+					continue
+				}
+				n++
+				if isNilIdent(info, as.Rhs[i]) {
+					bad = true
+					c.R.Violate("R-NIL/map", p.Pos(as), f.Name, "store nil to "+p.FieldName(fv),
+						"the map is set to nil although other functions store elements into it: a store that runs afterwards (an operation still in flight while this one cleans up) panics with \"assignment to entry in nil map\"", nil)
+				}
+			}
+			return true
+		})
+	}
+	if !bad {
+		c.R.Hold("R-NIL/map", "-", "", "map fields that are stored into are never set to nil", fmt.Sprintf("%d map fields with element stores, %d whole-field assignments, none of nil", len(stored), n), true)
+	}
+}
+
+// ---------- R-CTOR/session: the client muxer is connected when it is handed out ----------
+
+// ruleMuxerConnected: NewGRPCClientMuxer returns a muxer whose session field
+// holds the result of yamux.Client - the connection is made (and its failure
+// reported) by the constructor. Listener() hands m.session to every blocked
+// listener without a nil check, and Client() relies on the constructor's error
+// to report a plugin that is already gone.
+func ruleMuxerConnected(c *Ctx) {
+	p := c.P
+	f := p.Fn("grpcmux.NewGRPCClientMuxer")
+	if f == nil {
+		c.R.Undecided("R-CTOR/session", "grpcmux.NewGRPCClientMuxer", "anchor", "function not found")
+		return
+	}
+	info := f.Pkg.TypesInfo
+	sessF := p.FieldObj(modPath+"/internal/grpcmux", "GRPCClientMuxer", "session")
+	var sessV *types.Var
+	for _, call := range f.Calls() {
+		if p.CalleeName(f, call) == "github.com/hashicorp/yamux.Client" {
+			sessV = assignedVar(p, info, call)
+		}
+	}
+	ok := false
+	ast.Inspect(f.Body, func(x ast.Node) bool {
+		kv, isKV := x.(*ast.KeyValueExpr)
+		if !isKV {
+			return true
+		}
+		if k, isID := kv.Key.(*ast.Ident); isID && sessF != nil && info.Uses[k] == types.Object(sessF) {
+			if sessV != nil && identObj(info, kv.Value) == types.Object(sessV) {
+				ok = true
+			}
+		}
+		return true
+	})
+	if ok {
+		c.R.Hold("R-CTOR/session", p.Pos(f.Node()), f.Name, "session initialised by the constructor", "the returned muxer's session is the result of yamux.Client", true)
+	} else {
+		c.R.Violate("R-CTOR/session", p.Pos(f.Node()), f.Name, "session initialised by the constructor",
+			"the client muxer is handed out without an established yamux session: Listener() passes the (nil) session to the blocked listeners, whose Addr()/Accept() dereference it, and a plugin that is already gone is no longer reported by Client()", nil)
 	}
 }
